@@ -262,6 +262,32 @@ func (e *vfEnv) closeAll() {
 	e.up = false
 }
 
+// vfKeyPrefixes are the boundary classes of the index's hash-prefix
+// sub-buckets (index.go: the first two hash bytes select one of 65536
+// pre-created buckets): the non-genesis header ids get them in turn, so every
+// model behaviour also exercises the first and the last sub-bucket.
+var vfKeyPrefixes = [][2]byte{{0xff, 0xff}, {0x00, 0x00}, {0x00, 0xff}, {0xff, 0x00}, {0xff, 0xfe}, {0x80, 0x00}}
+
+var vfNonceCache sync.Map
+
+// vfGrindPrefix sets the nonce of header id so that its hash starts with the
+// id's key prefix class.
+func vfGrindPrefix(id int, h *wire.BlockHeader) {
+	want := vfKeyPrefixes[(id-1)%len(vfKeyPrefixes)]
+	if n, ok := vfNonceCache.Load(id); ok {
+		h.Nonce = n.(uint32)
+		return
+	}
+	for n := uint32(0); ; n++ {
+		h.Nonce = n
+		hash := h.BlockHash()
+		if hash[0] == want[0] && hash[1] == want[1] {
+			vfNonceCache.Store(id, n)
+			return
+		}
+	}
+}
+
 func (e *vfEnv) mkIDs() {
 	e.hdr = make([]*wire.BlockHeader, e.n)
 	e.hash = make([]chainhash.Hash, e.n)
@@ -282,6 +308,7 @@ func (e *vfEnv) mkIDs() {
 				Bits:       0x207fffff,
 				Nonce:      uint32(i),
 			}
+			vfGrindPrefix(i, e.hdr[i])
 			e.fh[i] = sha256.Sum256(append([]byte("fh"), buf[:]...))
 		}
 		e.hash[i] = e.hdr[i].BlockHash()
